@@ -391,7 +391,7 @@ def _order_font(n):
 
 _GROUP = {"cmap": "cmap", "cmap14": "cmap", "cmap10": "cmap", "hmtx": "hmtx", "vmtx": "vmtx", "glyf": "glyf", "loca": "glyf", "name": "name",
           "kern": "kern", "post": "post", "OS/2": "OS/2", "layout": "layout", "gvar": "gvar", "fvar": "fvar", "avar": "avar", "COLR": "COLR"}
-_TABLE_GROUP = {"GPOS": "layout", "cmap": "cmap", "hmtx": "hmtx", "vmtx": "vmtx", "glyf": "glyf", "loca": "glyf", "name": "name", "kern": "kern", "post": "post",
+_TABLE_GROUP = {"HVAR": "HVAR", "VVAR": "VVAR", "DeltaSetIndexMap": "idxmap", "GPOS": "layout", "cmap": "cmap", "hmtx": "hmtx", "vmtx": "vmtx", "glyf": "glyf", "loca": "glyf", "name": "name", "kern": "kern", "post": "post",
                 "OS/2": "OS/2", "GSUB": "layout", "GDEF": "layout", "Coverage": "layout", "ClassDef": "layout", "SingleSubst": "layout",
                 "gvar": "gvar", "fvar": "fvar", "avar": "avar", "COLR": "COLR"}
 
@@ -796,6 +796,21 @@ def cases(tier, seed):
     if T_:
         for part in range(2):
             add("gvar", shape="long_offsets", part=part, reps=1, speed=0)
+    # number of shareable peak tuples around the 12-bit shared-tuple index limit
+    for k in ((4095, 4096, 4097, 5000, 9000) if T_ else (4097,)):
+        add("gvar", shape="shared_tuple_count", k=k, part=0, reps=1, speed=0)
+    # delta-set index maps: OR of inner / outer indices at 2^k-1, 2^k, 2^k+1, entry sizes 1..4, entry counts
+    for shape in GV.IDXMAP_SHAPES:
+        for host in ("HVAR", "VVAR", "COLR"):
+            for part in range(P if host == "HVAR" else max(1, P // 2)):
+                add("idxmap", shape=shape, host=host, part=part, reps=4 * R)
+        add("idxmap", shape=shape, host="HVAR", part=90, reps=2, big=1)
+    for count in ((65535, 65536, 65537) if T_ else (65536,)):
+        add("idxmap", shape="random", host="COLR", part=91, reps=1, count=count)
+    if T_:
+        add("idxmap", shape="trailing_run", host="HVAR", part=92, reps=1, count=65535)
+    for part in range(P):
+        add("dicttables", part=part, reps=6 * R)
     for shape in GV.FVAR_SHAPES:
         for part in range(P):
             add("fvar", shape=shape, part=part, reps=4 * R)
@@ -859,7 +874,8 @@ REQUIRED_MONITORS = ["cmap0.compile", "cmap2.compile", "cmap4.compile", "cmap6.c
                      "cmap14.compile", "cmap.compile", "hmtx.compile", "Glyph.compile", "glyf.compile", "loca.compile",
                      "name.compile", "kern0.compile", "kern.compile", "post.compile", "OS/2.compile",
                      "Coverage.preWrite", "ClassDef.preWrite", "SingleSubst.preWrite", "otTable.compile",
-                     "TupleVariation.compile", "gvar.compile", "fvar.compile", "avar.compile", "COLR.compile", "buildCOLR"]
+                     "TupleVariation.compile", "gvar.compile", "fvar.compile", "avar.compile", "COLR.compile", "buildCOLR",
+                     "DeltaSetIndexMap.getEntryFormat", "xVAR.compile", "VORG.compile", "gasp.compile", "hdmx.compile"]
 REQUIRED_SITES = [
     "cmap4.segment-idDelta", "cmap4.segment-idRangeOffset", "cmap4.splitRange-subranges", "cmap12_13.new-group", "cmap2.shared-subarray",
     "cmap14.default-uvs", "cmap14.nondefault-uvs", "hmtx.trim-step", "hmtx.all-advances-equal", "hmtx.trailing-side-bearings",
@@ -3120,7 +3136,7 @@ def drv_gvar(case, rnd, ctx):
 
     shape = case["shape"]
     for rep in range(case["reps"]):
-        g = G.gen_gvar(rnd, shape)
+        g = G.gen_gvar_shared_count(rnd, case["k"]) if shape == "shared_tuple_count" else G.gen_gvar(rnd, shape)
         tags, descs = g["axes"], g["glyphs"]
         names = _names(len(descs))
         fb = _build(names, descs, recalc=True, speed=bool(case.get("speed")))
@@ -3363,6 +3379,341 @@ def drv_avar(case, rnd, ctx):
                       {"harfbuzz": bad_hb[:3], "freetype": bad_ft[:3]})
         elif bad_hb or bad_ft:
             _disagree(ctx, "avar engines vs model", {"harfbuzz": bad_hb[:3], "freetype": bad_ft[:3]})
+
+
+# =====================================================================================
+# delta-set index maps (HVAR / VVAR AdvWidthMap..., COLR VarIndexMap) and small dict-built tables (VORG, gasp, hdmx)
+# =====================================================================================
+def _idxmap_expand(dm, n):
+    """Entries of a struct-read DeltaSetIndexMap for slots 0..n-1 (spec: slots past the end use the last entry)."""
+    e = dm["entries"]
+    if not e:
+        return [None] * n
+    return [e[i] if i < len(e) else e[-1] for i in range(n)]
+
+
+def _setup_idxmap():
+    from fontTools.ttLib.tables import otTables as ot, otBase, V_O_R_G_ as VO, _g_a_s_p as GA, _h_d_m_x as HD
+    from fontTools.ttLib import newTable
+
+    def post_format(state, a, kw, res, exc):
+        if exc is not None:
+            return
+        mapping = list(a[0])
+        _judged()
+        inner_bits = (res & 0x0F) + 1
+        size = ((res & 0x30) >> 4) + 1
+        ori = oro = 0
+        for v in mapping:
+            ori |= v & 0xFFFF
+            oro |= v >> 16
+        need_i = max(1, ori.bit_length())
+        if inner_bits < need_i or size * 8 < inner_bits + oro.bit_length() or res & ~0x3F:
+            _report("DeltaSetIndexMap", "reader", "entry format cannot hold the indices",
+                    {"entryFormat": res, "innerBits": inner_bits, "entrySize": size, "OR(inner)": ori, "OR(outer)": oro},
+                    field="innerBits" if inner_bits < need_i else "entrySize")
+        rel = lambda x: "0" if x == 0 else "2^k" if x & (x - 1) == 0 else "2^k-1" if x & (x + 1) == 0 else "2^k+1" if (x - 1) & (x - 2) == 0 else "x"
+        _note("DeltaSetIndexMap.entry-size-%d" % size)
+        _key("DSIM/i%s/o%s/s%d/b%d" % (rel(ori), rel(oro), size, inner_bits))
+
+    hooks.attach(ot, "DeltaSetIndexMap.getEntryFormat", post=post_format, name="DeltaSetIndexMap.getEntryFormat")
+
+    def xvar_content(tab, font):
+        order = font.getGlyphOrder()
+        names = ("AdvWidthMap", "LsbMap", "RsbMap") if tab.tableTag == "HVAR" else ("AdvHeightMap", "TsbMap", "BsbMap", "VOrgMap")
+        out = {}
+        for key, nm in zip(("advance", "sb1", "sb2", "vorg"), names):
+            m = getattr(tab.table, nm, None)
+            out[key] = None if m is None else [(m.mapping[g] >> 16, m.mapping[g] & 0xFFFF) for g in order]
+        return out
+
+    def pre_xvar(a, kw):
+        tab, font = a[0], a[1]
+        if tab.tableTag not in ("HVAR", "VVAR"):
+            return None
+        return {"want": xvar_content(tab, font)}
+
+    def post_xvar(state, a, kw, res, exc):
+        if exc is not None or state is None:
+            return
+        tab, font = a[0], a[1]
+        tag = tab.tableTag
+        res = bytes(res)
+        n = len(font.getGlyphOrder())
+        want = state["want"]
+        _judged()
+        try:
+            rd = T.hvar(res, vertical=tag == "VVAR")
+        except (T.Bad, struct.error, IndexError) as e:
+            _report(tag, "reader", "spec reader rejects the table", repr(e))
+            return
+        got = {k: (None if m is None else _idxmap_expand(m, n)) for k, m in rd["maps"].items()}
+        _cur["cap"][tag] = {"bytes": res, "reader": rd, "maps": got}
+        for k in want:
+            if want[k] != got.get(k):
+                w, g = want[k] or [], got.get(k) or []
+                _report(tag, "reader", "spec reader sees other delta-set indices", {"map": k, "diff(glyph,want,got)": [(i, x, y) for i, (x, y) in enumerate(zip(w, g)) if x != y][:4] or (len(w), len(g))},
+                        field=k)
+        t2 = newTable(tag)
+        _judged()
+        try:
+            t2.decompile(res, font)
+            back = xvar_content(t2, font)
+        except Exception as e:
+            _report(tag, "self-inverse", "decompile of compile output raised %s" % type(e).__name__, repr(e))
+            return
+        if back != want:
+            k = [k for k in want if want[k] != back.get(k)][0]
+            _report(tag, "self-inverse", "decompile(compile(x)) != x", {"map": k, "diff": [(i, x, y) for i, (x, y) in enumerate(zip(want[k] or [], back.get(k) or [])) if x != y][:4]}, field=k)
+        _note("%s.tables" % tag)
+        for k, m in rd["maps"].items():
+            if m is not None:
+                _note("%s.map-entries-stored" % tag, len(m["entries"]))
+                if len(m["entries"]) < n:
+                    _note("%s.maps-with-trimmed-tail" % tag)
+
+    hooks.attach(otBase, "BaseTTXConverter.compile", pre=pre_xvar, post=post_xvar, name="xVAR.compile")
+
+    # ---- tables compiled from dicts: the records must come out sorted whatever the insertion order
+    def post_vorg(state, a, kw, res, exc):
+        if exc is not None:
+            return
+        tab, font = a[0], a[1]
+        rev = _rev(font)
+        res = bytes(res)
+        want = {rev[g]: v for g, v in tab.VOriginRecords.items()}
+        _judged()
+        try:
+            rd = T.vorg(res)
+        except (T.Bad, struct.error) as e:
+            _report("VORG", "reader", "spec reader rejects the table", repr(e))
+            return
+        if rd["records"] != want or rd["default"] != tab.defaultVertOriginY:
+            _report("VORG", "reader", "spec reader sees other records", _dictdiff(want, rd["records"]))
+        t2 = VO.table_V_O_R_G_()
+        _judged()
+        try:
+            t2.decompile(res, font)
+            back = {rev[g]: v for g, v in t2.VOriginRecords.items()}
+        except Exception as e:
+            _report("VORG", "self-inverse", "decompile of compile output raised %s" % type(e).__name__, repr(e))
+            return
+        if back != want or t2.defaultVertOriginY != tab.defaultVertOriginY:
+            _report("VORG", "self-inverse", "decompile(compile(x)) != x", _dictdiff(want, back))
+        _key("VORG/n%s" % _size_class(len(want)))
+
+    hooks.attach(VO, "table_V_O_R_G_.compile", post=post_vorg, name="VORG.compile")
+
+    def post_gasp(state, a, kw, res, exc):
+        if exc is not None:
+            return
+        tab, font = a[0], a[1]
+        res = bytes(res)
+        want = sorted(tab.gaspRange.items())
+        _judged()
+        try:
+            rd = T.gasp(res)
+        except (T.Bad, struct.error) as e:
+            _report("gasp", "reader", "spec reader rejects the table", repr(e))
+            return
+        if rd["ranges"] != want:
+            _report("gasp", "reader", "spec reader sees other ranges", (want[:4], rd["ranges"][:4]))
+        t2 = GA.table__g_a_s_p()
+        _judged()
+        try:
+            t2.decompile(res, font)
+        except Exception as e:
+            _report("gasp", "self-inverse", "decompile of compile output raised %s" % type(e).__name__, repr(e))
+            return
+        if sorted(t2.gaspRange.items()) != want:
+            _report("gasp", "self-inverse", "decompile(compile(x)) != x", (want[:4], sorted(t2.gaspRange.items())[:4]))
+        _key("gasp/v%d/n%s" % (rd["version"], _size_class(len(want))))
+
+    hooks.attach(GA, "table__g_a_s_p.compile", post=post_gasp, name="gasp.compile")
+
+    def post_hdmx(state, a, kw, res, exc):
+        if exc is not None:
+            return
+        tab, font = a[0], a[1]
+        res = bytes(res)
+        order = font.getGlyphOrder()
+        want = [(ppem, max(w.values()), [w[g] for g in order]) for ppem, w in sorted(tab.hdmx.items())]
+        _judged()
+        try:
+            rd = T.hdmx(res, len(order))
+        except (T.Bad, struct.error, IndexError) as e:
+            _report("hdmx", "reader", "spec reader rejects the table", repr(e))
+            return
+        if rd["records"] != want:
+            _report("hdmx", "reader", "spec reader sees other device records", [(w[0], g[0]) for w, g in zip(want, rd["records"]) if w != g][:4] or (len(want), len(rd["records"])))
+        t2 = HD.table__h_d_m_x()
+        _judged()
+        try:
+            t2.decompile(res, font)
+            back = [(ppem, max(w.values()), [w[g] for g in order]) for ppem, w in sorted(t2.hdmx.items())]
+        except Exception as e:
+            _report("hdmx", "self-inverse", "decompile of compile output raised %s" % type(e).__name__, repr(e))
+            return
+        if back != want:
+            _report("hdmx", "self-inverse", "decompile(compile(x)) != x", (len(want), len(back)))
+        _key("hdmx/r%s/n%s" % (_size_class(len(want)), _size_class(len(order))))
+
+    hooks.attach(HD, "table__h_d_m_x.compile", post=post_hdmx, name="hdmx.compile")
+    _site("VarIdxMap.trailing-run-trimmed", ot.VarIdxMap.preWrite, r"del mapping\[-1\]")
+    _site("DeltaSetIndexMap.format1-long-count", ot.DeltaSetIndexMap.preWrite, r"self\.Format = 1 if")
+
+
+_SETUPS.append(_setup_idxmap)
+
+
+def _row_delta(outer, inner):
+    return (outer * 131 + inner * 7) % 2001          # non-negative: HarfBuzz clamps negative advances
+
+
+def drv_idxmap(case, rnd, ctx):
+    """Advance-width delta-set index maps (HVAR/VVAR) and a bare DeltaSetIndexMap (COLR VarIndexMap)."""
+    from fontTools.ttLib import newTable
+    from fontTools.ttLib.tables import otTables as ot
+    from fontTools.varLib import builder as VB
+    from vmon.gen import c02_var as G
+
+    shape, host, big = case["shape"], case["host"], bool(case.get("big"))
+    for rep in range(case["reps"]):
+        n = rnd.choice([3, 9, 40]) if not case.get("count") else case["count"]
+        entries = G.gen_index_map(rnd, shape, n, big=big)
+        # an item variation store with one region (wght peak 1) and a distinct delta in every row
+        nouter = max([o for o, i in entries if o != 0xFFFF] + [0]) + 1
+        rows = [1] * nouter
+        for o, i in entries:
+            if o != 0xFFFF:
+                rows[o] = max(rows[o], i + 1)
+        if ctx.sample is None:
+            ctx.sample = {"kind": "delta-set index map", "host": host, "shape": shape, "slots": n, "entries_head": entries[:6],
+                          "OR(inner)": hex(sum({1 << b for o, i in entries for b in range(16) if i >> b & 1}))}
+        store = VB.buildVarStore(VB.buildVarRegionList([{"wght": (0.0, 1.0, 1.0)}], ["wght"]),
+                                 [VB.buildVarData([0], [[_row_delta(o, i)] for i in range(rows[o])], optimize=False) for o in range(nouter)])
+        varidx = [(o << 16) | i for o, i in entries]
+        if host == "COLR":
+            from fontTools.colorLib.builder import buildCOLR
+            names = _names(4)
+            fb = _build(names, [dict(_TRI) for _ in names], cmap=_pua(names))
+            fb.setupFvar([("wght", -1.0, 0.0, 1.0, "wght")], [])
+            m = ot.DeltaSetIndexMap()
+            m.mapping = list(varidx)
+            _cur["cap"].pop("COLR", None)
+
+            def build():
+                fb.font["COLR"] = buildCOLR({names[1]: {"Format": 10, "Glyph": names[2], "Paint": {"Format": 3, "PaletteIndex": 0, "Alpha": 1.0, "VarIndexBase": 0}}},
+                                            version=1, glyphMap=fb.font.getReverseGlyphMap(), varStore=store, varIndexMap=m)
+                fb.setupCPAL([[(1, 0, 0, 1)]])
+            ok, _x = _lib(ctx, "buildCOLR", build, table="COLR", shape=shape)
+            if not ok:
+                continue
+            ok, data = _save(ctx, fb, table="COLR", shape=shape)
+            if not ok:
+                continue
+            tabs = T.sfnt_tables(data)
+            ctx.judged()
+            try:
+                dm = T.colr_var_index_map(tabs["COLR"])
+            except (T.Bad, struct.error, IndexError) as e:
+                _semantic(ctx, "COLR", "reader", "VarIndexMap rejected by the spec reader", repr(e), field="VarIndexMap")
+                continue
+            got = dm["entries"] if dm else None
+            if got != entries:
+                _semantic(ctx, "COLR", "reader", "compiled VarIndexMap differs from the generated content",
+                          [(i, w, g) for i, (w, g) in enumerate(zip(entries, got or [])) if w != g][:4] or (len(entries), len(got or [])),
+                          field="VarIndexMap", diff="changed")
+            if dm and (dm["format"] == 1) != (len(entries) > 0xFFFF):
+                _semantic(ctx, "COLR", "reader", "VarIndexMap format does not match the entry count", (dm["format"], len(entries)), field="VarIndexMap")
+            # self-inverse on the saved table
+            t2 = newTable("COLR")
+            ok, _x = _lib(ctx, "COLR.decompile", t2.decompile, tabs["COLR"], fb.font, table="COLR")
+            if ok:
+                ctx.judged()
+                back = [(v >> 16, v & 0xFFFF) for v in t2.table.VarIndexMap.mapping]
+                if back != entries:
+                    ctx.violation({"kind": "content", "table": "COLR", "oracle": "self-inverse", "what": "decompile(compile(x)) != x", "field": "VarIndexMap"},
+                                  "COLR VarIndexMap: decompile(compile(x)) != x — %s" % _short([(i, w, g) for i, (w, g) in enumerate(zip(entries, back)) if w != g][:4]))
+            _key("DSIM/COLR/f%d/n%s" % (dm["format"] if dm else -1, _size_class(len(entries))))
+            continue
+        # HVAR / VVAR: one slot per glyph
+        names = _names(n)
+        vertical = host == "VVAR"
+        fb = _build(names, [dict(_TRI) for _ in names], cmap=_pua(names),
+                    vmetrics={nm: (1000, 0) for nm in names} if vertical else None)
+        fb.setupFvar([("wght", -1.0, 0.0, 1.0, "wght")], [])
+        tab = fb.font[host] = newTable(host)
+        t = tab.table = getattr(ot, host)()
+        t.Version = 0x00010000
+        t.VarStore = store
+        items = list(zip(names, varidx))
+        rnd.shuffle(items)                       # dict insertion order must not matter
+        vm = ot.VarIdxMap()
+        vm.mapping = dict(items)
+        if vertical:
+            t.AdvHeightMap, t.TsbMap, t.BsbMap, t.VOrgMap = vm, None, None, None
+        else:
+            t.AdvWidthMap, t.LsbMap, t.RsbMap = vm, None, None
+        _cur["cap"].pop(host, None)
+        ok, data = _save(ctx, fb, table=host, shape=shape)
+        cap = _cur["cap"].get(host)
+        if not ok or cap is None:
+            continue
+        ctx.judged()
+        got = cap["maps"]["advance"]
+        if got != entries:
+            _semantic(ctx, host, "reader", "compiled index map differs from the generated content",
+                      [(i, w, g) for i, (w, g) in enumerate(zip(entries, got or [])) if w != g][:4], field="advance", diff="changed")
+        # HarfBuzz at wght = 1: advance = default + delta of the row the *struct reader* sees
+        hb = _hb(data, normalized=[1.0])
+        bad = []
+        for gid in range(n) if n <= 200 else rnd.sample(range(n), 200):
+            o, i = got[gid]
+            d = _row_delta(o, i) if (o != 0xFFFF and o < nouter and i < rows[o]) else 0
+            adv = -hb.v_advance(gid) if vertical else hb.h_advance(gid)
+            base = 1000 if vertical else 500
+            if adv != base + d:
+                bad.append((gid, (o, i), base + d, adv))
+        ctx.judged()
+        _note("%s.harfbuzz-advances-checked" % host, min(n, 200))
+        if bad:
+            _disagree(ctx, "%s index map: harfbuzz vs struct reader" % host, bad[:4])
+
+
+def drv_dicttables(case, rnd, ctx):
+    """VORG, gasp, hdmx: built from dicts in shuffled insertion order; their records are binary-searched by readers."""
+    from fontTools.ttLib import newTable
+
+    for rep in range(case["reps"]):
+        n = rnd.choice([1, 2, 7, 60, 300])
+        names = _names(n)
+        font = _order_font(n)
+        # VORG
+        t = newTable("VORG")
+        t.majorVersion, t.minorVersion = 1, 0
+        t.defaultVertOriginY = rnd.choice([880, 0, -32768, 32767])
+        items = [(names[g], rnd.choice([0, 880, -120, 32767, -32768, rnd.randint(-1000, 1000)])) for g in rnd.sample(range(n), rnd.randint(0, n))]
+        rnd.shuffle(items)
+        t.VOriginRecords = dict(items)
+        if ctx.sample is None:
+            ctx.sample = {"kind": "VORG/gasp/hdmx", "numGlyphs": n, "VORG_records_in_insertion_order": items[:5]}
+        _lib(ctx, "VORG.compile", t.compile, font, table="VORG")
+        # gasp
+        t = newTable("gasp")
+        t.version = 1
+        ppems = rnd.sample([7, 8, 9, 16, 17, 20, 48, 255, 256, 0x7FFF, 0xFFFE, 0xFFFF], rnd.randint(1, 8))
+        t.gaspRange = {p: rnd.choice([0, 1, 2, 3, 5, 10, 15]) for p in ppems}
+        _lib(ctx, "gasp.compile", t.compile, font, table="gasp")
+        # hdmx
+        t = newTable("hdmx")
+        sizes = rnd.sample(range(1, 256), rnd.randint(1, 12))
+        t.hdmx = {}
+        for ppem in sizes:
+            order = list(names)
+            rnd.shuffle(order)
+            t.hdmx[ppem] = {g: rnd.choice([0, 1, 255, rnd.randrange(256)]) for g in order}
+        _lib(ctx, "hdmx.compile", t.compile, _Shim(names, maxp=types.SimpleNamespace(numGlyphs=n)), table="hdmx")
 
 
 # =====================================================================================
